@@ -8,7 +8,7 @@ SHARDS = 16
 RUN_TIMEOUT = 1500
 MODE = "24"
 RULE = ("histories of at/remove/om/rmom on a fresh in-process p2p connection pair: ALL histories of length <= 3 (quick) / <= 4 "
-        "(thorough) over 4 paths (/, /a, /a/b, /x) x {I1, I2, ObjectManager}; all of length <= 2 over 6 paths x 3 interfaces + "
+        "(thorough; those of length 4 that start with a removal are skipped) over 4 paths (/, /a, /a/b, /x) x {I1, I2, ObjectManager}; all of length <= 2 over 6 paths x 3 interfaces + "
         "ObjectManager; random histories of length 20..60 (thorough: up to 200), 60% steered away from the known-deviation "
         "classes so that the oracle stays in force over the whole history, each flagged random history also run cut before its "
         "first flagged step. After EVERY op: result, 6 paths x 4 interfaces looked up through ObjectServer::interface and "
@@ -118,13 +118,17 @@ def gen(rng, tier):
     maxlen = 3 if tier == "quick" else 4
     for n in range(0, maxlen + 1):
         for t in itertools.product(small, repeat=n):
+            # length 4 (thorough): a history that starts with a removal on the fresh server only adds a failing
+            # first step to a length-3 history that is already there
+            if n == 4 and t[0].startswith("rm"):
+                continue
             yield line(t)
     big = alphabet(PATHS_ALL, "123")
     for n in range(1, 3):
         for t in itertools.product(big, repeat=n):
             yield line(t)
     # random long histories
-    count = 500 if tier == "quick" else 3000
+    count = 500 if tier == "quick" else 2000
     hi = 60 if tier == "quick" else 200
     for i in range(count):
         n = rng.randint(20, hi)
